@@ -455,6 +455,7 @@ def local_case(args):
     fsteps = FSteps(root, step, reads=True, torn=True)
     if short_at is not None:
         fsteps.short_write_fn = lambda path, n: ctr['occ'].get('os-write', 0) - 1 == short_at
+        fsteps.short_read_fn = lambda path, n: ctr['occ'].get('os-read', 0) - 1 == short_at
     fsteps.install()
     res = exc = src = None
     model = dict(state)
@@ -551,7 +552,7 @@ def local_op_cases(op):
                 vs.append((dict(sig0, what='temporary-file-left-behind', position=pos[0]), dict(d1, files=o['leftovers'])))
     # a raw os.write may write less than it was given without failing: the object must still come out whole
     for pos in positions:
-        if pos[0] != 'os-write':
+        if pos[0] not in ('os-write', 'os-read'):
             continue
         o = local_case((op, [], pos[1]))
         n += 1
@@ -559,6 +560,10 @@ def local_op_cases(op):
         if o['exc'] is None and (o['truth'] != o['model'] or o['leftovers']):
             vs.append((dict(sig0, what='short-write-not-completed', position=pos[0]),
                        dict(d1, changed={k: len(v) for k, v in o['truth'].items() if o['model'].get(k) != v})))
+        want = expected_result(op, o['state'])
+        if o['exc'] is None and want is not None and o['res'] != want:
+            vs.append((dict(sig0, what='short-read-not-completed', position=pos[0]),
+                       dict(d1, got=repr(o['res'])[:120], want=repr(want)[:120])))
     # pairs: one transient fault at each of two positions
     for p1, p2 in itertools.combinations(positions, 2):
         if op == 'list':
